@@ -8,6 +8,7 @@ import QecVerif.Lemmas.IPauli
 import QecVerif.Props.C09
 import Mathlib.Data.List.Perm.Subperm
 import Mathlib.Data.List.Induction
+import QecVerif.Lemmas.Lattice.Planar
 namespace Qec.Distance
 open Qec
 
@@ -676,5 +677,54 @@ def IsDistanceSpan (n : Nat) (S : List BVec) (d : Nat) : Prop :=
     `dim S^⊥ = 2n − rank S`; it is used as a HYPOTHESIS here (C07 supplies rank and pairing). -/
 def NormaliserComplete (n : Nat) (S L : List BVec) : Prop :=
   ∀ e, e.length = 2 * n → commAll S e = true → (∀ l ∈ L, bsp e l = false) → InSpan n S e
+
+/-! ### a weight lower bound from pairwise disjoint supports (used by the all-sizes distance lower bounds) -/
+
+/-- qubit `f` of the `n`-qubit operator `e` carries a non-identity Pauli -/
+def actsOn (n : Nat) (e : BVec) (f : Nat) : Bool := e.getD f false || e.getD (n + f) false
+
+/-- `wt e` is the number of qubits on which `e` acts -/
+theorem wt_eq_countP (n : Nat) (e : BVec) (he : e.length = 2 * n) :
+    wt e = (List.range n).countP (actsOn n e) :=
+  Qec.Planar.bsfWt_eq_countP e n he
+
+/-- a duplicate-free list of qubits on each of which `e` acts is no longer than `wt e` -/
+theorem length_le_wt (n : Nat) (e : BVec) (he : e.length = 2 * n) (l : List Nat) (hnd : l.Nodup)
+    (hl : ∀ f ∈ l, f < n ∧ actsOn n e f = true) : l.length ≤ wt e := by
+  rw [wt_eq_countP n e he, List.countP_eq_length_filter]
+  apply List.Subperm.length_le
+  apply List.subperm_of_subset hnd
+  intro f hf
+  obtain ⟨h1, h2⟩ := hl f hf
+  exact List.mem_filter.mpr ⟨List.mem_range.mpr h1, h2⟩
+
+/-- **disjoint supports bound**: if `P 0, …, P (m-1)` are pairwise disjoint sets of qubits (`P j f`: qubit `f`
+    belongs to set `j`) and `e` acts on some qubit of each of them (its X or its Z bit is set there), then
+    `m ≤ wt e` -/
+theorem wt_ge_of_disjoint (n : Nat) (e : BVec) (he : e.length = 2 * n) (m : Nat) (P : Nat → Nat → Prop)
+    (hdisj : ∀ j j' f, P j f → P j' f → j = j')
+    (hex : ∀ j, j < m → ∃ f, f < n ∧ P j f ∧ actsOn n e f = true) : m ≤ wt e := by
+  have key : ∀ k, k ≤ m → ∃ l : List Nat, l.Nodup ∧ l.length = k ∧
+      ∀ f ∈ l, (f < n ∧ actsOn n e f = true) ∧ ∃ j, j < k ∧ P j f := by
+    intro k
+    induction k with
+    | zero => intro _; exact ⟨[], List.nodup_nil, rfl, by simp⟩
+    | succ k ih =>
+      intro hk
+      obtain ⟨l, hnd, hlen, hl⟩ := ih (by omega)
+      obtain ⟨f, hf, hP, hb⟩ := hex k (by omega)
+      refine ⟨f :: l, List.nodup_cons.mpr ⟨?_, hnd⟩, by simp [hlen], ?_⟩
+      · intro hmem
+        obtain ⟨_, j, hj, hPj⟩ := hl f hmem
+        have := hdisj j k f hPj hP
+        omega
+      · intro g hg
+        rcases List.mem_cons.mp hg with rfl | hg
+        · exact ⟨⟨hf, hb⟩, k, by omega, hP⟩
+        · obtain ⟨h1, j, hj, hPj⟩ := hl g hg
+          exact ⟨h1, j, by omega, hPj⟩
+  obtain ⟨l, hnd, hlen, hl⟩ := key m (Nat.le_refl m)
+  rw [← hlen]
+  exact length_le_wt n e he l hnd fun f hf => (hl f hf).1
 
 end Qec.Distance
